@@ -255,42 +255,27 @@ macro_rules! bk {
     };
 }
 
-// @vp name=c20_nd_access_2x3 prop=C20 tier=quick mem=30 t=480 features=backends fns=ndarray::get,get_row,get_row_as_vec,copy_row_as_vec,get_col_as_vec,copy_col_as_vec size=2x3 dom=any-f64-bits
+// @vp name=c20_nd_access_2x3 prop=C20 tier=quick t=480 features=backends fns=ndarray::get,get_row,get_row_as_vec,copy_row_as_vec,get_col_as_vec,copy_col_as_vec size=2x3 dom=any-f64-bits
 bk!(c20_nd_access_2x3, 9, {
     let a: [f64; 6] = kani::any();
     structural::<Array2<f64>, 2, 3, 6, 0>(nd(2, 3, &a), &a);
-});
-// @vp name=c20_nd_transpose_flatten_2x3 prop=C20 tier=thorough mem=40 t=3600 features=backends fns=ndarray::transpose,to_row_vector size=2x3 dom=any-f64-bits
-bk!(c20_nd_transpose_flatten_2x3, 9, {
-    let a: [f64; 6] = kani::any();
-    structural::<Array2<f64>, 2, 3, 6, 1>(nd(2, 3, &a), &a);
 });
 // @vp name=c20_nd_reshape_2x3 prop=C20 tier=quick t=480 features=backends fns=ndarray::reshape size=2x3 dom=any-f64-bits
 bk!(c20_nd_reshape_2x3, 9, {
     let a: [f64; 6] = kani::any();
     structural::<Array2<f64>, 2, 3, 6, 2>(nd(2, 3, &a), &a);
 });
-// @vp name=c20_nd_access_3x2 prop=C20 tier=thorough mem=40 t=3600 features=backends fns=ndarray::get,get_row,get_row_as_vec,copy_row_as_vec,get_col_as_vec,copy_col_as_vec size=3x2 dom=any-f64-bits
-bk!(c20_nd_access_3x2, 9, {
-    let a: [f64; 6] = kani::any();
-    structural::<Array2<f64>, 3, 2, 6, 0>(nd(3, 2, &a), &a);
-});
-// @vp name=c20_nd_transpose_flatten_3x2 prop=C20 tier=thorough mem=40 t=3600 features=backends fns=ndarray::transpose,to_row_vector size=3x2 dom=any-f64-bits
-bk!(c20_nd_transpose_flatten_3x2, 9, {
-    let a: [f64; 6] = kani::any();
-    structural::<Array2<f64>, 3, 2, 6, 1>(nd(3, 2, &a), &a);
-});
 // @vp name=c20_nd_reshape_3x2 prop=C20 tier=quick t=480 features=backends fns=ndarray::reshape size=3x2 dom=any-f64-bits
 bk!(c20_nd_reshape_3x2, 9, {
     let a: [f64; 6] = kani::any();
     structural::<Array2<f64>, 3, 2, 6, 2>(nd(3, 2, &a), &a);
 });
-// @vp name=c20_nd_transposed_flatten_2x3 prop=C20 tier=thorough mem=40 t=3600 features=backends fns=ndarray::transpose,to_row_vector size=2x3-transposed dom=any-f64-bits
+// @vp name=c20_nd_transposed_flatten_2x3 prop=C20 tier=thorough mem=25 t=1200 features=backends fns=ndarray::transpose,to_row_vector size=2x3-transposed dom=any-f64-bits
 bk!(c20_nd_transposed_flatten_2x3, 9, {
     let a: [f64; 6] = kani::any();
     transposed_layout::<Array2<f64>, 2, 3, 6, 0>(nd(2, 3, &a), &a);
 });
-// @vp name=c20_nd_transposed_reshape_2x3 prop=C20 tier=thorough mem=40 t=3600 features=backends fns=ndarray::transpose,reshape size=2x3-transposed dom=any-f64-bits
+// @vp name=c20_nd_transposed_reshape_2x3 prop=C20 tier=thorough mem=25 t=1200 features=backends fns=ndarray::transpose,reshape size=2x3-transposed dom=any-f64-bits
 bk!(c20_nd_transposed_reshape_2x3, 9, {
     let a: [f64; 6] = kani::any();
     transposed_layout::<Array2<f64>, 2, 3, 6, 1>(nd(2, 3, &a), &a);
@@ -336,73 +321,55 @@ bk!(c20_na_transposed_reshape_2x3, 9, {
     transposed_layout::<DMatrix<f64>, 2, 3, 6, 1>(na(2, 3, &a), &a);
 });
 
-// @vp name=c20_nd_slice_take_2x3 prop=C20 tier=thorough mem=40 t=3600 features=backends fns=ndarray::slice,take size=2x3 dom=any-f64-bits
+// @vp name=c20_nd_slice_take_2x3 prop=C20 tier=thorough mem=25 t=1200 features=backends fns=ndarray::slice,take size=2x3 dom=any-f64-bits
 bk!(c20_nd_slice_take_2x3, 9, {
     let a: [f64; 6] = kani::any();
     let b: [f64; 6] = kani::any();
     slice_stack::<Array2<f64>, 2, 3, 6, 0>(nd(2, 3, &a), nd(2, 3, &b), &a, &b);
 });
-// @vp name=c20_nd_stack_copy_set_2x3 prop=C20 tier=thorough mem=40 t=3600 features=backends fns=ndarray::h_stack,v_stack,copy_from,set size=2x3 dom=any-f64-bits
-bk!(c20_nd_stack_copy_set_2x3, 9, {
-    let a: [f64; 6] = kani::any();
-    let b: [f64; 6] = kani::any();
-    slice_stack::<Array2<f64>, 2, 3, 6, 1>(nd(2, 3, &a), nd(2, 3, &b), &a, &b);
-});
-// @vp name=c20_nd_ctors_2x3 prop=C20 tier=thorough mem=40 t=3600 features=backends fns=ndarray::from_row_vector,eye,fill,zeros,ones size=2x3 dom=any-f64-bits
-bk!(c20_nd_ctors_2x3, 9, {
-    let a: [f64; 6] = kani::any();
-    let b: [f64; 6] = kani::any();
-    slice_stack::<Array2<f64>, 2, 3, 6, 2>(nd(2, 3, &a), nd(2, 3, &b), &a, &b);
-});
-// @vp name=c20_nd_reduce_2x3 prop=C20 tier=thorough mem=40 t=3600 features=backends fns=ndarray::sum,max,min,norm,max_diff size=2x3 dom=lattice(-4..4),f64
+// @vp name=c20_nd_reduce_2x3 prop=C20 tier=thorough mem=25 t=1200 features=backends fns=ndarray::sum,max,min,norm,max_diff size=2x3 dom=lattice(-4..4),f64
 bk!(c20_nd_reduce_2x3, 9, {
     let (ai, a) = latarr::<6>(-4, 4);
     let (bi, b) = latarr::<6>(-4, 4);
     reductions::<Array2<f64>, 2, 3, 6, 0>(nd(2, 3, &a), nd(2, 3, &b), &ai, &bi);
 });
-// @vp name=c20_nd_means_argmax_2x3 prop=C20 tier=thorough mem=40 t=3600 features=backends fns=ndarray::column_mean,mean,argmax size=2x3 dom=lattice(-4..4),f64
+// @vp name=c20_nd_means_argmax_2x3 prop=C20 tier=thorough mem=25 t=1200 features=backends fns=ndarray::column_mean,mean,argmax size=2x3 dom=lattice(-4..4),f64
 bk!(c20_nd_means_argmax_2x3, 9, {
     let (ai, a) = latarr::<6>(-4, 4);
     let (bi, b) = latarr::<6>(-4, 4);
     reductions::<Array2<f64>, 2, 3, 6, 1>(nd(2, 3, &a), nd(2, 3, &b), &ai, &bi);
 });
-// @vp name=c20_nd_elementwise_2x3 prop=C20 tier=thorough mem=40 t=3600 features=backends fns=ndarray::add,sub,mul,negative,abs,mul_scalar,approximate_eq size=2x3 dom=lattice(-4..4),f64
-bk!(c20_nd_elementwise_2x3, 9, {
-    let (ai, a) = latarr::<6>(-4, 4);
-    let (bi, b) = latarr::<6>(-4, 4);
-    reductions::<Array2<f64>, 2, 3, 6, 2>(nd(2, 3, &a), nd(2, 3, &b), &ai, &bi);
-});
-// @vp name=c20_na_slice_take_2x3 prop=C20 tier=quick mem=30 t=480 features=backends fns=nalgebra::slice,take size=2x3 dom=any-f64-bits
+// @vp name=c20_na_slice_take_2x3 prop=C20 tier=quick t=480 features=backends fns=nalgebra::slice,take size=2x3 dom=any-f64-bits
 bk!(c20_na_slice_take_2x3, 9, {
     let a: [f64; 6] = kani::any();
     let b: [f64; 6] = kani::any();
     slice_stack::<DMatrix<f64>, 2, 3, 6, 0>(na(2, 3, &a), na(2, 3, &b), &a, &b);
 });
-// @vp name=c20_na_stack_copy_set_2x3 prop=C20 tier=thorough mem=40 t=3600 features=backends fns=nalgebra::h_stack,v_stack,copy_from,set size=2x3 dom=any-f64-bits
+// @vp name=c20_na_stack_copy_set_2x3 prop=C20 tier=thorough mem=25 t=1200 features=backends fns=nalgebra::h_stack,v_stack,copy_from,set size=2x3 dom=any-f64-bits
 bk!(c20_na_stack_copy_set_2x3, 9, {
     let a: [f64; 6] = kani::any();
     let b: [f64; 6] = kani::any();
     slice_stack::<DMatrix<f64>, 2, 3, 6, 1>(na(2, 3, &a), na(2, 3, &b), &a, &b);
 });
-// @vp name=c20_na_ctors_2x3 prop=C20 tier=quick mem=30 t=480 features=backends fns=nalgebra::from_row_vector,eye,fill,zeros,ones size=2x3 dom=any-f64-bits
+// @vp name=c20_na_ctors_2x3 prop=C20 tier=quick t=480 features=backends fns=nalgebra::from_row_vector,eye,fill,zeros,ones size=2x3 dom=any-f64-bits
 bk!(c20_na_ctors_2x3, 9, {
     let a: [f64; 6] = kani::any();
     let b: [f64; 6] = kani::any();
     slice_stack::<DMatrix<f64>, 2, 3, 6, 2>(na(2, 3, &a), na(2, 3, &b), &a, &b);
 });
-// @vp name=c20_na_reduce_2x3 prop=C20 tier=quick mem=30 t=480 features=backends fns=nalgebra::sum,max,min,norm,max_diff size=2x3 dom=lattice(-4..4),f64
+// @vp name=c20_na_reduce_2x3 prop=C20 tier=quick t=480 features=backends fns=nalgebra::sum,max,min,norm,max_diff size=2x3 dom=lattice(-4..4),f64
 bk!(c20_na_reduce_2x3, 9, {
     let (ai, a) = latarr::<6>(-4, 4);
     let (bi, b) = latarr::<6>(-4, 4);
     reductions::<DMatrix<f64>, 2, 3, 6, 0>(na(2, 3, &a), na(2, 3, &b), &ai, &bi);
 });
-// @vp name=c20_na_means_argmax_2x3 prop=C20 tier=quick mem=30 t=480 features=backends fns=nalgebra::column_mean,mean,argmax size=2x3 dom=lattice(-4..4),f64
+// @vp name=c20_na_means_argmax_2x3 prop=C20 tier=quick t=480 features=backends fns=nalgebra::column_mean,mean,argmax size=2x3 dom=lattice(-4..4),f64
 bk!(c20_na_means_argmax_2x3, 9, {
     let (ai, a) = latarr::<6>(-4, 4);
     let (bi, b) = latarr::<6>(-4, 4);
     reductions::<DMatrix<f64>, 2, 3, 6, 1>(na(2, 3, &a), na(2, 3, &b), &ai, &bi);
 });
-// @vp name=c20_na_elementwise_2x3 prop=C20 tier=quick mem=30 t=480 features=backends fns=nalgebra::add,sub,mul,negative,abs,mul_scalar,approximate_eq size=2x3 dom=lattice(-4..4),f64
+// @vp name=c20_na_elementwise_2x3 prop=C20 tier=quick t=480 features=backends fns=nalgebra::add,sub,mul,negative,abs,mul_scalar,approximate_eq size=2x3 dom=lattice(-4..4),f64
 bk!(c20_na_elementwise_2x3, 9, {
     let (ai, a) = latarr::<6>(-4, 4);
     let (bi, b) = latarr::<6>(-4, 4);
@@ -410,17 +377,11 @@ bk!(c20_na_elementwise_2x3, 9, {
 });
 
 // small ndarray instances of the sign-dependent reductions for the quick tier (the 2x3 ones need 40 GB)
-// @vp name=c20_nd_reduce_1x2 prop=C20 tier=quick mem=30 t=480 features=backends fns=ndarray::sum,max,min,norm,max_diff size=1x2 dom=lattice(-4..4),f64
+// @vp name=c20_nd_reduce_1x2 prop=C20 tier=quick t=480 features=backends fns=ndarray::sum,max,min,norm,max_diff size=1x2 dom=lattice(-4..4),f64
 bk!(c20_nd_reduce_1x2, 6, {
     let (ai, a) = latarr::<2>(-4, 4);
     let (bi, b) = latarr::<2>(-4, 4);
     reductions::<Array2<f64>, 1, 2, 2, 0>(nd(1, 2, &a), nd(1, 2, &b), &ai, &bi);
-});
-// @vp name=c20_nd_elementwise_1x2 prop=C20 tier=thorough mem=40 t=3600 features=backends fns=ndarray::add,sub,mul,negative,abs,mul_scalar,approximate_eq size=1x2 dom=lattice(-4..4),f64
-bk!(c20_nd_elementwise_1x2, 18, {
-    let (ai, a) = latarr::<2>(-4, 4);
-    let (bi, b) = latarr::<2>(-4, 4);
-    reductions::<Array2<f64>, 1, 2, 2, 2>(nd(1, 2, &a), nd(1, 2, &b), &ai, &bi);
 });
 
 // nalgebra matmul (ndarray's goes through inline assembly in `matrixmultiply` and cannot be translated)
